@@ -284,58 +284,68 @@ func runSensitivity(c *Ctx) {
 		return
 	}
 	results := make([]mutResult, len(ids))
+	runOne := func(id string) mutResult {
+		m := mutantByID(id)
+		cmd := exec.Command(self, "-property", prop, "-tier", "quick", "-mutant", id)
+		cmd.Env = os.Environ()
+		var out bytes.Buffer
+		cmd.Stdout = &out
+		cmd.Stderr = &out
+		err := cmd.Run()
+		code := 0
+		if ee, ok := err.(*exec.ExitError); ok {
+			code = ee.ExitCode()
+		} else if err != nil {
+			code = -1
+		}
+		res := mutResult{id: id}
+		switch {
+		case code == 1:
+			hit := false
+			for _, line := range strings.Split(out.String(), "\n") {
+				if strings.Contains(line, " "+m.Expect) && !strings.HasPrefix(line, "VIOLATION") && !strings.HasPrefix(line, "  ") {
+					hit = true
+				}
+			}
+			if hit {
+				res.status = "detected"
+			} else {
+				res.status = "detected-by-other-rule"
+				res.detail = "reported, but not by " + m.Expect
+			}
+		case code == 0:
+			res.status = "MISSED"
+		default:
+			res.status = "discarded"
+			lines := strings.Split(strings.TrimSpace(out.String()), "\n")
+			if len(lines) > 0 {
+				res.detail = lines[0]
+				if len(res.detail) > 200 {
+					res.detail = res.detail[:200]
+				}
+			}
+		}
+		return res
+	}
 	var wg sync.WaitGroup
-	sem := make(chan struct{}, 6)
+	sem := make(chan struct{}, 4)
 	for i, id := range ids {
 		wg.Add(1)
 		go func(i int, id string) {
 			defer wg.Done()
 			sem <- struct{}{}
 			defer func() { <-sem }()
-			m := mutantByID(id)
-			cmd := exec.Command(self, "-property", prop, "-tier", "quick", "-mutant", id)
-			cmd.Env = os.Environ()
-			var out bytes.Buffer
-			cmd.Stdout = &out
-			cmd.Stderr = &out
-			err := cmd.Run()
-			code := 0
-			if ee, ok := err.(*exec.ExitError); ok {
-				code = ee.ExitCode()
-			} else if err != nil {
-				code = -1
-			}
-			res := mutResult{id: id}
-			switch {
-			case code == 1:
-				hit := false
-				for _, line := range strings.Split(out.String(), "\n") {
-					if strings.Contains(line, " "+m.Expect) && !strings.HasPrefix(line, "VIOLATION") && !strings.HasPrefix(line, "  ") {
-						hit = true
-					}
-				}
-				if hit {
-					res.status = "detected"
-				} else {
-					res.status = "detected-by-other-rule"
-					res.detail = "reported, but not by " + m.Expect
-				}
-			case code == 0:
-				res.status = "MISSED"
-			default:
-				res.status = "discarded"
-				lines := strings.Split(strings.TrimSpace(out.String()), "\n")
-				if len(lines) > 0 {
-					res.detail = lines[0]
-					if len(res.detail) > 200 {
-						res.detail = res.detail[:200]
-					}
-				}
-			}
-			results[i] = res
+			results[i] = runOne(id)
 		}(i, id)
 	}
 	wg.Wait()
+	// a child that was killed (several thorough checks side by side exhaust the memory) produced no verdict:
+	// run those operators again, one at a time
+	for i := range results {
+		if results[i].status == "discarded" && !strings.Contains(results[i].detail, "operator out of date") && !strings.Contains(results[i].detail, "infrastructure") {
+			results[i] = runOne(results[i].id)
+		}
+	}
 	sort.Slice(results, func(i, j int) bool { return results[i].id < results[j].id })
 	nDet, nMiss, nDisc := 0, 0, 0
 	var list []map[string]string
